@@ -68,6 +68,15 @@ def run_calls(rep, tier, invariants, apis, label="DWT1Calls", **over):
     return res
 
 
+def run_calls2(rep, tier, invariants, apis, label="DWT2", **over):
+    c = models.model(models.DWT2_CALLS, tier, Apis=set(apis), **over)
+    res = tlc.run_model("DWT2", c, invariants=list(invariants) + ["EmitOK"], shards=NCPU,
+                        tag=label, timeout=3000)
+    rep.add_tlc(res, label)
+    design_check(rep, res, label)
+    return res
+
+
 def design_check(rep, res, label):
     """TLC-level problems.  An invariant violation of a registered model means the model of the
     code (Impl) or a law of Ref fails at design level; the replay decides whether the real code
